@@ -1,6 +1,9 @@
 //! Correspondence harness: runs the real desert library (built from /repo's working tree)
 //! on case files and prints one canonical observation per case.
+mod catalogue;
 mod codec;
+mod statics;
+mod sxv;
 mod dynval;
 mod ioops;
 mod sx;
@@ -19,6 +22,7 @@ fn main() {
     let rest = &args[2..];
     match args[1].as_str() {
         "codec" => codec::cases(rest),
+        "static" => statics::cases(rest),
         "ioops" => ioops::cases(rest),
         "varint-cases" => varint::cases(rest),
         "varint-sweep" => varint::sweep(rest),
